@@ -732,6 +732,26 @@ func cmdRandom(path string, seed int64, n, maxLen, long, longLen int) {
 	nLong, longCalls := 0, atomic.LoadInt64(&calls)
 	for i := 0; i < long; i++ {
 		cps := randCps(rng, 1+rng.Intn(longLen))
+		if i%3 == 0 {
+			// runs: long stretches of one class of character (whatever depends on the ratio between the length of
+			// the text and the length of its encoding shows with those, not with mixtures)
+			cps = cps[:0]
+			for r, nr := 0, 1+rng.Intn(4); r < nr; r++ {
+				k, cls := 1+rng.Intn(60), rng.Intn(4)
+				for j := 0; j < k; j++ {
+					switch cls {
+					case 0:
+						cps = append(cps, 0x21+rng.Intn(0x5d))
+					case 1:
+						cps = append(cps, 0x80+rng.Intn(0x800-0x80))
+					case 2:
+						cps = append(cps, 0x4e00+rng.Intn(0x5000))
+					default:
+						cps = append(cps, 0x1f300+rng.Intn(0x300))
+					}
+				}
+			}
+		}
 		src := cpsToString(cps)
 		enter(0, func() string { return fmt.Sprintf("long round trip %q", src) })
 		o := callOnce(verifutf7.EncodeString, src)
@@ -747,6 +767,17 @@ func cmdRandom(path string, seed int64, n, maxLen, long, longLen int) {
 			b := callOnce(verifutf7.DecodeString, o.Out)
 			if bad == "" && (b.Panic != "" || b.Err != nil || b.Out != src) {
 				bad = fmt.Sprintf("Decode(Encode(s)) = %q err=%v panic=%q", b.Out, b.Err, b.Panic)
+			}
+			// ... and through the real call sites (imapwire.Encoder.Mailbox -> wire text -> Decoder.ExpectMailbox)
+			if bad == "" && !strings.EqualFold(src, "INBOX") {
+				t := callOnce(verifutf7.WireText, src)
+				w := callOnce(verifutf7.WireRoundTrip, src)
+				switch {
+				case t.Panic != "" || t.Err != nil || t.Out != o.Out:
+					bad = fmt.Sprintf("Encoder.Mailbox carries %q err=%v panic=%q, EncodeString gives %q", t.Out, t.Err, t.Panic, o.Out)
+				case w.Panic != "" || w.Err != nil || w.Out != src:
+					bad = fmt.Sprintf("ExpectMailbox(Encoder.Mailbox(s)) = %q err=%v panic=%q", w.Out, w.Err, w.Panic)
+				}
 			}
 			for _, sc := range schedules {
 				if bad != "" {
